@@ -1349,7 +1349,7 @@ class AnsiString:
         }
 
         # If given start is in between format indices, check if all the settings already exist there
-        if start not in idx_to_settings:
+        if start not in idx_to_settings and start < end:
             current_settings = self.ansi_settings_at(start)
             if False not in [x in current_settings for x in ansi_settings]:
                 found_start = start
@@ -1358,8 +1358,8 @@ class AnsiString:
         if found_start is None:
             for idx in sorted(idx_to_settings.keys(), reverse=reverse):
                 current_settings = idx_to_settings[idx]
-                # All settings must exist for this to be a valid start
-                if False not in [x in current_settings for x in ansi_settings]:
+                # All settings must exist for this to be a valid start, and it must be a position within the range
+                if idx < end and False not in [x in current_settings for x in ansi_settings]:
                     found_start = idx
                     break
 
